@@ -211,6 +211,7 @@ def _case(bindir, seed, index, tier, gen, runner, sample_fn=None):
     vs, stats, sigs = runner(bindir, hist)
     r.evals = stats["invocations"] + stats["clean_builds"]
     r.stats = stats
+    r.stats["distinct_schedule_traces"] = len(set(sigs))
     r.stats["histories"] = 1
     r.stats["history_steps"] = len(hist["steps"])
     r.sigs = [sig(seed, len(hist["steps"]))] if len(hist["steps"]) >= 2 else []
